@@ -199,6 +199,8 @@ def canon(n):
     if k == "mcall":
         return "%s.%s(%s)" % (canon(n["r"]), n["m"], canon(n["a"]))
     if k == "bin":
+        if n["op"].endswith("=") and n["op"] not in ("==", "!=", "<=", ">="):
+            return "%s %s %s" % (canon(n["l"]), n["op"], canon(n["r"]))
         return "(%s %s %s)" % (canon(n["l"]), n["op"], canon(n["r"]))
     if k == "un":
         return "%s%s" % (n["op"], canon(n["e"]))
